@@ -55,7 +55,7 @@ def hostCall (op : String) (args : List Bytes) : Option (String × String × Str
     some (bit (hostSr2Go pk m sg), bit (srVerifyRef pk m sg),
       if pk == zeros32 then "sr25519-zero-key-always-valid" else "")
   | "hecv", [pub, m, sg] =>
-    some (bit (hostEcvGo pub m sg), bit (hostEcvRef pub m sg), "ecdsa-verify-ignores-recovery-id")
+    some (bit (hostEcvGo pub m sg), bit (hostEcvRef pub m sg), "")
   | "hecr1", [m, sg] => some (hex (hostRecoverGo false m sg), hex (hostRecoverRef 1 false m sg), "R")
   | "hecr2", [m, sg] => some (hex (hostRecoverGo false m sg), hex (hostRecoverRef 2 false m sg), "R")
   | "hecc1", [m, sg] => some (hex (hostRecoverGo true m sg), hex (hostRecoverRef 1 true m sg), "R")
@@ -71,7 +71,7 @@ def hostQueued (op : String) (args : List Bytes) : Option String :=
   | "hsr1", [pk, m, sg] | "hsr2", [pk, m, sg] =>
     if (rDecode pk).isSome then some s!"1 batch={srVerifyGo pk m sg}" else some "0 batch=true"
   | "hecv", [pub, m, sg] =>
-    if (skParsePub pub).isSome then some s!"1 batch={hostEcvGo pub m sg}" else some "0 batch=true"
+    if (skParsePub pub).isSome then some s!"1 batch={hostEcvQueued pub m sg}" else some "0 batch=true"
   | _, _ => none
 
 def hostLine (op0 : String) (args : List Bytes) : String :=
@@ -85,7 +85,7 @@ def hostLine (op0 : String) (args : List Bytes) : String :=
     let sfx := if mode == 'b' then " finish=1" else ""
     -- recovery: the error variant is missing (tag by cause)
     let tag := if tag == "R" then
-        (if spec.startsWith "00" then "ecdsa-recover-v1-overflowing" else "ecdsa-recover-error-untyped") else tag
+        "ecdsa-recover-v1-overflowing" else tag
     if model == spec then model ++ sfx
     else s!"{model}{sfx}\tspec={spec}{sfx}\tkf={tag}"
 
